@@ -2,7 +2,7 @@
 
 Space (geometry lattice): region polygons from a 10-polygon alphabet on a 0..100 integer lattice (square, rectangle, L, U with
 prongs of different width, triangle, bow-tie (self-intersecting), two triangles sharing a vertex (self-touching), nested,
-overlapping and disjoint squares): ALL sets of 1..Nr regions; baselines from a 12-line alphabet (inside, outside, touching
+overlapping and disjoint squares): ALL sets of 1..Nr regions; baselines from a 13-line alphabet (inside, outside, touching
 the boundary in a point, entering once, crossing several regions, crossing the U twice with unequal pieces, inside part of
 exactly 2 px / 3 px, diagonal, 3-point polyline, inside the nested square): ALL sets of 1..3 lines.  Then
 LayoutExtractor.process_page for all 16 combinations of (detect regions, detect lines, merge lines, multi-orientation) with a
@@ -18,7 +18,7 @@ ID = 'C11'
 
 MANIFEST = dict(
     technique='explicit-state enumeration of a region-polygon x baseline lattice on the real assign_lines_to_regions, and of all option combinations of the real LayoutExtractor.process_page / TextlineExtractorSimple with stub detectors; geometric oracle on the outputs',
-    text='Bounded exhaustive: every set of 1-2 (quick) / 1-3 (thorough) regions over a 10-polygon alphabet (convex, concave, self-intersecting, self-touching, nested, overlapping, disjoint) x every set of 1-3 baselines over a 12-line alphabet (about 16 000 / 58 000 configurations). Every placed line must lie inside its region with a baseline that is a piece of the detected one and an outline clipped to the region; wholly-inside lines longer than 2 px must be placed unchanged, untouched regions get nothing, multiple entries keep the longest piece, and all ids of a page are distinct (also as keys of the logits dictionary). All 16 option combinations of the layout extractor with a stub detector and the simple text-line extractor are driven through the same oracle.',
+    text='Bounded exhaustive: every set of 1-2 (quick) / 1-3 (thorough) regions over a 10-polygon alphabet (convex, concave, self-intersecting, self-touching, nested, overlapping, disjoint) x every set of 1-3 baselines over a 13-line alphabet (about 16 000 / 58 000 configurations). Every placed line must lie inside its region with a baseline that is a piece of the detected one and an outline clipped to the region; wholly-inside lines longer than 2 px must be placed unchanged, untouched regions get nothing, multiple entries keep the longest piece, and all ids of a page are distinct (also as keys of the logits dictionary). All 16 option combinations of the layout extractor with a stub detector and the simple text-line extractor are driven through the same oracle.',
     note='For invalid (self-intersecting / self-touching) region polygons the convex hull is the reference shape (that is what the code documents); a baseline that additionally touches the region in isolated points may be placed or not.',
     ref='3/C11')
 
@@ -47,6 +47,7 @@ LINES = [
     [(15, 23), (30, 26), (45, 23)],  # 9 3-point polyline inside
     [(22, 31), (38, 31)],            # 10 inside the nested square
     [(72, 81), (88, 81)],            # 11 inside the disjoint square
+    [(12, 21), (48, 21)],            # 12 both end points (and the whole outline's vertices) inside the U, the segment crosses its notch
 ]
 HEIGHTS = [4, 2]
 BOUNDS = {'quick': dict(max_regions=2), 'thorough': dict(max_regions=3)}
@@ -189,7 +190,7 @@ def check_regions(regions_out, inputs, ctx, K, desc, case, check_presence=True):
 
 def make_inputs(line_idx):
     from pero_ocr.layout_engines.layout_helpers import baseline_to_textline
-    bs = [np.asarray(LINES[i], dtype=np.float64) for i in line_idx]
+    bs = [np.asarray(line_points(i), dtype=np.float64) for i in line_idx]
     return [(b, baseline_to_textline(b, HEIGHTS)) for b in bs]
 
 
@@ -224,7 +225,14 @@ SCENARIOS = [
     {0: ([0, 9], [0, 3, 11]), 1: ([1], [4]), 3: ([8], [8])},
     {0: ([3], [5, 0]), 1: ([3], [5]), 3: ([], [])},
     {0: ([0, 7, 8], [0, 10, 4, 9]), 1: ([0], [0]), 3: ([0], [9])},
+    # one text row detected as a chain of three fragments (A-B and B-C close, A-C far apart) + a separate line, inside the wide rectangle
+    {0: ([1], ['f0', 'f1', 'f2', 'f3']), 1: ([], []), 3: ([], [])},
 ]
+FRAGMENTS = {'f0': [(8, 26), (14, 26.2)], 'f1': [(16, 26.2), (28, 26.6), (40, 26.2)], 'f2': [(42, 26.2), (50, 26)], 'f3': [(10, 36), (50, 36.4)]}
+
+
+def line_points(i):
+    return FRAGMENTS[i] if isinstance(i, str) else LINES[i]
 
 
 class StubEngine:
@@ -235,14 +243,14 @@ class StubEngine:
         from pero_ocr.layout_engines.layout_helpers import baseline_to_textline
         regs, lines = self.s.get(rot, ([], []))
         p = [np.asarray(REGIONS[i], dtype=np.float64) for i in regs]
-        b = [np.asarray(LINES[i], dtype=np.float64) for i in lines]
+        b = [np.asarray(line_points(i), dtype=np.float64) for i in lines]
         return p, b, [list(HEIGHTS) for _ in b], [baseline_to_textline(x, HEIGHTS) for x in b]
 
     def detect_lines(self, img, polygon):
         import shapely.geometry as sg
         from pero_ocr.layout_engines.layout_helpers import baseline_to_textline
         shape = ref_shape(polygon)
-        b = [np.asarray(LINES[i], dtype=np.float64) for i in self.s[0][1] if shape.covers(sg.LineString(LINES[i]))]
+        b = [np.asarray(line_points(i), dtype=np.float64) for i in self.s[0][1] if shape.covers(sg.LineString(line_points(i)))]
         return b, [list(HEIGHTS) for _ in b], [baseline_to_textline(x, HEIGHTS) for x in b]
 
 
@@ -262,13 +270,27 @@ def check_extractor(case, ctx):
     out = ex.process_page(np.zeros((100, 100, 3), np.uint8), page)
     ctx.executed()
     rots = [0, 1, 3] if mo else [0]
-    all_lines = sorted({i for r in rots for i in scen[r][1]})
+    all_lines = sorted({i for r in rots for i in scen[r][1]}, key=str)
     inputs = make_inputs(all_lines)
     desc = (f'LayoutExtractor(detect_regions={bool(dr)}, detect_lines={bool(dl)}, merge_lines={bool(ml)}, multi_orientation={bool(mo)}), '
             f'stub detections per rotation {scen}')
     key = f'{ID}/LayoutExtractor/' + ('regions-kept' if not dr else 'regions-detected') + ('+multi-orientation' if mo else '')
     # merged lines are re-fitted curves, not pieces of single detections -> containment/ids only
     ok = check_regions(out.regions, inputs, ctx, key, desc, case, check_presence=False) if not ml else ids_only(out, ctx, key, desc, case)
+    if ok and ml and dl and not mo:      # (with several orientations a detection only belongs to the regions of its own pass)
+        # merging may join detections, but a detection lying wholly inside a region must still be covered by a line of that region
+        import shapely.geometry as sg
+        for reg in out.regions:
+            shape = ref_shape(reg.polygon)
+            for i, (b, o) in zip(all_lines, inputs):
+                bl_in = sg.LineString(b)
+                if shape.covers(bl_in) and not shape.boundary.intersects(bl_in) and bl_in.length > 2:
+                    if not any(sg.LineString(ln.baseline).buffer(2.5).covers(bl_in) for ln in reg.lines):
+                        ctx.violation('wholly-inside-line-always-placed', f'{key}/merge-lines/inside-line-lost',
+                                      f'{desc}: detection {np.asarray(b).tolist()} lies wholly inside region {reg.id} but no line of that region covers it '
+                                      f'(lines: {[np.asarray(ln.baseline).round(1).tolist() for ln in reg.lines]})', case)
+                        return
+        ctx.tag('merge-lines-coverage')
     if ok:
         ctx.outcome(('extractor', sum(len(r.lines) for r in out.regions)))
         if dl and sum(len(r.lines) for r in out.regions) > 1:
@@ -315,12 +337,13 @@ def check_case(case, ctx):
 
 def describe(tier):
     return {
-        'rule': 'all sets of 1..max_regions regions (10-polygon alphabet) x all sets of 1..3 baselines (12-line alphabet) through '
+        'rule': 'all sets of 1..max_regions regions (10-polygon alphabet) x all sets of 1..3 baselines (13-line alphabet) through '
                 'assign_lines_to_regions; 16 option combinations x 3 stub-detection scenarios through LayoutExtractor.process_page; 3 through '
                 'TextlineExtractorSimple. state = distinct configuration. Non-trivial: >= 2 regions with >= 2 placed lines; counters for multi-piece '
                 'intersections and wholly-inside lines.',
         'bounds': BOUNDS[tier], 'alphabets': {'regions': REGIONS, 'baselines': LINES, 'heights': HEIGHTS},
         'assumptions': ['invalid region polygons are judged against their convex hull', 'merged lines (MERGE_LINES) are only checked for containment and ids'],
         'min_nontrivial': 100,
-        'required_tags': ['several-regions-several-placed-lines', 'several-pieces', 'wholly-inside', 'extractor-pages-with-lines'],
+        'required_tags': ['several-regions-several-placed-lines', 'several-pieces', 'wholly-inside', 'extractor-pages-with-lines',
+                          'merge-lines-coverage'],
     }
